@@ -10,3 +10,8 @@ func verifMark(string, uint64, string) {}
 
 // verifMarkLock marks the acquisition / release of one lock of a multiLock.
 func verifMarkLock(string, *sync.RWMutex) {}
+
+// verifFault is a fault-injection point of the verification harness (build tag `verif`): it is
+// consulted right before a file-system effect and its error is returned as if the effect had failed.
+// Without the tag it is an inlinable stub returning nil.
+func verifFault(string, string) error { return nil }
